@@ -44,7 +44,7 @@ Deliverables (create these files):
                               "needs_to_manifest": "...", "commands_run": ["..."], "results": "tests: N passed with change; demo: fails with / passes without"}}
   {wt}/_out/m2/...  and  {wt}/_out/m3/...   (same for changes 2 and 3)
 Verify yourself for each change: full test suite passes WITH the change; demo fails WITH the change; demo passes WITHOUT it
-(`git stash` / `git checkout -- src` to switch). Write each meta.json as soon as that change is verified. If after honest effort you
+(`git checkout -- src` to switch). Write each meta.json as soon as that change is verified. If after honest effort you
 can only produce two, deliver two. When done, leave the worktree's src/ UNMODIFIED (git checkout -- src) with only _out/ added.
 Final answer: at most 12 lines -- for each change one sentence on what it does and whether all three verifications succeeded.
 """
@@ -60,6 +60,11 @@ if VARIANT == "6":
     base = base.replace("Produce THREE independent, realistic changes", "Produce TWO independent, realistic changes").replace("(three different mechanisms at three different code\nsites; at least one of them", "(two different mechanisms at two different code\nsites, in two DIFFERENT functions; at least one of them")
     base = base.replace("Think of plausible developer mistakes:", "Both changes must get their effect from a PYTHON LANGUAGE OR LIBRARY SUBTLETY rather than from a plainly wrong condition - for example: a mutable default\nargument or class attribute shared between instances; a closure capturing a loop variable late; `is` vs `==` on strings / ints / enums; truthiness of 0, '' or an\nempty container vs `is None`; `and`/`or` returning an operand; dict / set ordering or key collisions; shallow vs deep copy and aliasing; a generator consumed twice; `sorted`/`min`/`max`\nkey and tie behaviour; integer vs float division or rounding; exception hierarchy (`except Exception` vs BaseException, `finally`/`return` overriding an exception,\n`raise ... from`); a context manager that swallows an exception; a decorator or property that caches; `__eq__`/`__hash__` of dataclasses; string formatting / `str()` vs `repr()`;\nargument evaluation order; late import side effects; thread-local vs shared state. The change should look like idiomatic, reasonable Python. Think of plausible developer mistakes:")
     base = base.replace("  {wt}/_out/m2/...  and  {wt}/_out/m3/...   (same for changes 2 and 3)", "  {wt}/_out/m2/...   (same for change 2)").replace("If after honest effort you\ncan only produce two, deliver two. ", "Say in meta.json (field \"subtlety\") which language/library subtlety each change relies on. ")
+if VARIANT == "8":
+    base = base.replace("Produce THREE independent, realistic changes", "Produce TWO independent, realistic changes").replace("(three different mechanisms at three different code\nsites; at least one of them", "(two different mechanisms at two different code\nsites, in two DIFFERENT functions; at least one of them")
+    base = base.replace("Think of plausible developer mistakes:", "Both changes must be STRUCTURAL: a plausible refactoring or small feature of 10-40 changed lines that MOVES or RESHAPES logic - extracting a helper or inlining one,\nmerging or splitting branches, replacing a loop by a comprehension / library call (or the reverse), changing a data structure (list -> dict, set -> list, tuple -> dataclass),\nintroducing early returns or guard clauses, hoisting a computation out of a loop or a lock, moving work from a constructor to first use, adding an optional\nparameter with a default, batching or caching something - and that breaks the property only as a side effect, in a corner the refactoring overlooked. A reviewer\nskimming the diff should find it reasonable. Think of plausible developer mistakes:")
+    base = base.replace("Keep each change small (a few lines). ", "")
+    base = base.replace("  {wt}/_out/m2/...  and  {wt}/_out/m3/...   (same for changes 2 and 3)", "  {wt}/_out/m2/...   (same for change 2)").replace("If after honest effort you\ncan only produce two, deliver two. ", "Never use `git stash` (other worktrees share it): switch with `git diff -- src > /tmp/<unique>.diff; git checkout -- src; ...; git apply /tmp/<unique>.diff`. ")
 for l in open('/verif/properties.jsonl'):
     p = json.loads(l)
     wt = f"{root}/{p['id']}"
